@@ -33,6 +33,12 @@ CPROJECT = {
     'subprojects/sub/meson.options': PROJECT['subprojects/sub/meson.options'],
 }
 
+# a Fortran project with the ninja backend: the backend keeps per-target scan data (<target>.p/*.dat, *.json) besides the manifest
+FPROJECT = dict(CPROJECT)
+FPROJECT['meson.build'] = PROJECT['meson.build'].replace("project('crash',", "project('crash', 'fortran',") + "executable('fe', 'fe.f90', 'fm.f90')\nstatic_library('fl', 'fm.f90')\n"
+FPROJECT['fe.f90'] = 'program fe\n  use fm\n  call hello()\nend program fe\n'
+FPROJECT['fm.f90'] = 'module fm\ncontains\n  subroutine hello()\n  end subroutine hello\nend module fm\n'
+
 # the same language-less project with the ninja backend (a custom target gives the manifest something to say): the recovery
 # has to leave a build.ninja that ninja can read
 NPROJECT = dict(PROJECT)
@@ -274,13 +280,15 @@ def main():
         ck.internal('tools/bin/fsfault.so missing: run ./setup.sh')
     mp.preimport()
     projects = [('nolang', PROJECT, 'none'), ('nolang-ninja', NPROJECT, 'ninja'), ('nolang-glob', PROJECT, 'none')]
+    if shutil.which('gfortran'):
+        projects.append(('fortran-ninja', FPROJECT, 'ninja'))
     if ck.thorough:
         projects.append(('c-ninja', CPROJECT, 'ninja'))
         global FOLLOW_WIPE
         FOLLOW_WIPE = True
     if ck.args.replay:
         d = json.load(open(ck.args.replay))
-        proj = {'nolang': PROJECT, 'nolang-ninja': NPROJECT, 'nolang-glob': PROJECT}.get(d['project'], CPROJECT)
+        proj = {'nolang': PROJECT, 'nolang-ninja': NPROJECT, 'nolang-glob': PROJECT, 'fortran-ninja': FPROJECT}.get(d['project'], CPROJECT)
         backend = 'none' if d['project'] in ('nolang', 'nolang-glob') else 'ninja'
         job, snap, before, points, rc, same = count_points((d['project'], proj, backend, d['history'], d['command']))
         res = trial((d['project'], proj, backend, d['history'], d['command'], d['k'], d.get('tear', 0)))
@@ -290,8 +298,11 @@ def main():
     NPAIRS = [('fresh', 'setup-fresh'), ('configured', 'reconfigure-D'), ('configured', 'wipe'), ('failed-reconfigure', 'reconfigure-D')]
     # a build directory whose name holds characters that glob treats specially: in quick the commands that list / delete files
     GPAIRS = [('fresh', 'setup-fresh'), ('configured', 'wipe'), ('native-file', 'wipe'), ('configured', 'reconfigure-D')]
+    # the Fortran project: in quick the commands that write the backend's per-target scan data
+    FPAIRS = [('fresh', 'setup-fresh'), ('configured', 'reconfigure-D')]
     cjobs = [(pn, pj, be, h, c) for pn, pj, be in projects for h, c in PAIRS
-             if ck.thorough or (pn == 'nolang') or (pn == 'nolang-ninja' and (h, c) in NPAIRS) or (pn == 'nolang-glob' and (h, c) in GPAIRS)]
+             if ck.thorough or (pn == 'nolang') or (pn == 'nolang-ninja' and (h, c) in NPAIRS) or (pn == 'nolang-glob' and (h, c) in GPAIRS)
+             or (pn == 'fortran-ninja' and (h, c) in FPAIRS)]
     trials = []
     tot = {'pairs': 0, 'mutation_points': 0, 'trials': 0, 'killed': 0, 'log_only_points_grouped': 0}
     per_pair = {}
